@@ -13,6 +13,8 @@
 #include "oomd/PluginRegistry.h"
 #include "oomd/config/ConfigCompiler.h"
 #include "oomd/config/JsonConfigParser.h"
+#include "oomd/dropin/DropInServiceAdaptor.h"
+#include "oomd/engine/Engine.h"
 #include "oomd/include/CgroupPath.h"
 #include "oomd/include/Types.h"
 #include "oomd/util/PluginArgParser.h"
@@ -53,6 +55,50 @@ static void value_query(const std::string& s, Json::Value& out, std::function<Js
     out["ok"] = false;
     out["exc"] = demangle(typeid(e).name());
   }
+}
+
+class QAdaptor : public Oomd::DropInServiceAdaptor {
+ public:
+  using Oomd::DropInServiceAdaptor::DropInServiceAdaptor;
+  using Oomd::DropInServiceAdaptor::scheduleDropInAdd;
+  using Oomd::DropInServiceAdaptor::scheduleDropInRemove;
+  std::vector<std::pair<std::string, bool>> results;
+
+ protected:
+  void tick() override {}
+  void handleDropInAddResult(const std::string& tag, bool ok) override {
+    results.emplace_back(tag, ok);
+  }
+  void handleDropInRemoveResult(const std::string& tag, bool ok) override {
+    results.emplace_back("-" + tag, ok);
+  }
+};
+
+// ids of the scripted plugins that ran, in order, during one prerun+runOnce
+static Json::Value tick_ids(Oomd::Engine::Engine& engine, Oomd::OomdContext& ctx) {
+  size_t ev0;
+  {
+    std::lock_guard<std::mutex> l(g.mu);
+    ev0 = g.buf.size();
+  }
+  engine.prerun(ctx);
+  engine.runOnce(ctx);
+  std::lock_guard<std::mutex> l(g.mu);
+  std::string evs = g.buf.substr(ev0);
+  g.buf.erase(ev0);
+  Json::Value arr(Json::arrayValue);
+  std::istringstream is(evs);
+  std::string line;
+  Json::CharReaderBuilder rb;
+  while (std::getline(is, line)) {
+    Json::Value e;
+    std::string errs;
+    std::istringstream ls(line);
+    if (Json::parseFromStream(rb, ls, &e, &errs) && e["ev"].asString() == "plugin" && e["m"].asString() != "init" && e["m"].asString() != "destroy") {
+      arr.append(e["m"].asString() + ":" + e["id"].asString() + "#" + e["inst"].asString());
+    }
+  }
+  return arr;
 }
 
 static Json::Value answer(const Json::Value& q) {
@@ -186,6 +232,50 @@ static Json::Value answer(const Json::Value& q) {
       }
     }
     out["inits"] = arr;
+  } else if (kind == "dropin_load") {
+    // the run-time load path of FsDropInService::processDropInAdd, reproduced step by step
+    Oomd::Config2::JsonConfigParser parser;
+    auto base = parser.parse(q["base"].asString());
+    Oomd::PluginConstructionContext cc("/dev/shm");
+    auto engine = Oomd::Config2::compile(*base, cc);
+    if (!engine) {
+      out["err"] = "base config does not compile";
+      return out;
+    }
+    Oomd::OomdContext ctx;
+    QAdaptor ad("/dev/shm", *base, *engine);
+    out["before"] = tick_ids(*engine, ctx);
+    std::unique_ptr<Oomd::Config2::IR::Root> dr;
+    try {
+      dr = parser.parse(q["dropin"].asString());
+      out["parse"] = dr ? "ok" : "null";
+    } catch (const std::exception& e) {
+      out["parse"] = "rejected"; // processDropInAdd catches std::exception around parse()
+      out["parse_exc"] = demangle(typeid(e).name());
+    }
+    if (dr) {
+      // scheduleDropInAdd runs on the watcher thread with no handler around it:
+      // anything thrown here would terminate the daemon
+      try {
+        out["schedule"] = ad.scheduleDropInAdd("t.json", *dr);
+      } catch (const std::exception& e) {
+        out["schedule"] = "exception";
+        out["schedule_exc"] = demangle(typeid(e).name());
+        out["schedule_what"] = e.what();
+        out["throw_site"] = g.last_throw;
+      }
+      ad.updateDropIns();
+      Json::Value rs(Json::arrayValue);
+      for (auto& r : ad.results) {
+        rs.append(r.first + (r.second ? ":ok" : ":fail"));
+      }
+      out["apply"] = rs;
+    }
+    {
+      std::lock_guard<std::mutex> l(g.mu);
+      g.buf.clear();
+    }
+    out["after"] = tick_ids(*engine, ctx);
   } else {
     out["err"] = "unknown query";
   }
